@@ -45,6 +45,9 @@ NODE = "cartgraph/node.py"
 G = "cartgraph/graph.py"
 I = "intertest_setup.py"
 MUTANTS = [
+    ("unrolled-for-other-workers-child", "cartgraph/node.py", "                if worker and worker.id in node.id:\n                    return True", "                if worker and worker.id not in node.id:\n                    return True", "4lu"),
+    ("unrolled-when-compatible", "cartgraph/node.py", "        elif worker and worker.net.long_suffix in self.incompatible_workers:\n            return True", "        elif worker and worker.net.long_suffix not in self.incompatible_workers:\n            return True", "4lu"),
+    ("unrolled-no-worker-needs-incompat", "cartgraph/node.py", "                elif worker is None:\n                    return True\n        return False", "                elif worker is not None:\n                    return True\n        return False", "4lu"),
     ("one-worker-empty-aborts-all", "cartgraph/graph.py", "            except param.EmptyCartesianProduct as error:\n                # a worker incompatible with the selection has no tests of its own\n                logging.warning(f\"No tests could be parsed for {worker.id}: {error}\")\n                empty_error = error\n                continue",
      "            except param.EmptyCartesianProduct as error:\n                raise", "6e"),
     ("empty-selection-accepted", "cartgraph/graph.py", "        if empty_error is not None and len(graph.nodes) == 0:\n            raise empty_error\n", "", "6e"),
